@@ -18,6 +18,8 @@ Pattern of a proof that a translated function `f` computes what the model says, 
 -/
 import PamsModel.Py
 import Mathlib.Order.Defs.LinearOrder
+import Mathlib.Order.Basic
+import Mathlib.Data.Int.Order.Basic
 import Lean
 
 namespace Pams.Py
@@ -208,5 +210,298 @@ macro "py_paths " t:term : tactic =>
   `(tactic| (rw [$t:term]
              simp only [List.forall_mem_cons, List.not_mem_nil, false_imp_iff, implies_true, and_true]
              repeat' apply And.intro))
+
+/-! ### pruning by order reasoning
+
+The conditions decided so far on a path are read as edges of a graph over terms (`a < b`: a strict
+edge from `a` to `b`; `¬ a < b`, `a ≤ b`, `a == b`: weak edges); a query is decided when the graph
+has a suitable path (a bounded depth-first search).  Sound for every valuation into a linear order. -/
+
+structure Edge (T : Type) where
+  src : T
+  dst : T
+  strict : Bool
+
+/-- is there a path from `x` to `y` — through at least one strict edge if `s` — of length ≤ fuel? -/
+def reach {T : Type} [DecidableEq T] (es : List (Edge T)) : Nat → T → T → Bool → Bool
+  | 0, x, y, s => decide (x = y) && !s
+  | n + 1, x, y, s =>
+    (decide (x = y) && !s) || es.any (fun e => decide (e.src = x) && reach es n e.dst y (s && !e.strict))
+
+theorem reach_sound {T L : Type} [DecidableEq T] [LinearOrder L] (val : T → L) (es : List (Edge T))
+    (hv : ∀ e ∈ es, if e.strict then val e.src < val e.dst else val e.src ≤ val e.dst) :
+    ∀ (n : Nat) (x y : T) (s : Bool), reach es n x y s = true →
+      (if s then val x < val y else val x ≤ val y)
+  | 0, x, y, s, h => by
+    simp only [reach, Bool.and_eq_true, decide_eq_true_eq, Bool.not_eq_true'] at h
+    obtain ⟨rfl, rfl⟩ := h
+    simp
+  | n + 1, x, y, s, h => by
+    simp only [reach, Bool.or_eq_true, Bool.and_eq_true, decide_eq_true_eq, Bool.not_eq_true',
+      List.any_eq_true] at h
+    rcases h with ⟨rfl, rfl⟩ | ⟨e, he, hsrc, hr⟩
+    · simp
+    · have hve := hv e he
+      have ih := reach_sound val es hv n e.dst y (s && !e.strict) hr
+      subst hsrc
+      cases hs : s <;> cases hst : e.strict <;> simp [hs, hst] at hve ih ⊢
+      · exact le_trans hve ih
+      · exact le_trans (le_of_lt hve) ih
+      · exact lt_of_le_of_lt hve ih
+      · exact lt_of_lt_of_le hve ih
+
+/-- the float-order edges of the decided conditions -/
+def nEdges : List (BTerm × Bool) → List (Edge NTerm)
+  | [] => []
+  | (.nlt a b, true) :: r => ⟨a, b, true⟩ :: nEdges r
+  | (.nlt a b, false) :: r => ⟨b, a, false⟩ :: nEdges r
+  | (.nle a b, true) :: r => ⟨a, b, false⟩ :: nEdges r
+  | (.nle a b, false) :: r => ⟨b, a, true⟩ :: nEdges r
+  | (.neq a b, true) :: r => ⟨a, b, false⟩ :: ⟨b, a, false⟩ :: nEdges r
+  | _ :: r => nEdges r
+
+/-- the integer-order edges of the decided conditions -/
+def iEdges : List (BTerm × Bool) → List (Edge ITerm)
+  | [] => []
+  | (.ilt a b, true) :: r => ⟨a, b, true⟩ :: iEdges r
+  | (.ilt a b, false) :: r => ⟨b, a, false⟩ :: iEdges r
+  | (.ile a b, true) :: r => ⟨a, b, false⟩ :: iEdges r
+  | (.ile a b, false) :: r => ⟨b, a, true⟩ :: iEdges r
+  | (.ieq a b, true) :: r => ⟨a, b, false⟩ :: ⟨b, a, false⟩ :: iEdges r
+  | _ :: r => iEdges r
+
+section
+variable {K : Type} [LinearOrder K] [NumOpsC K]
+
+theorem nEdges_valid (ρ : Rho K) : ∀ (known : List (BTerm × Bool)), (∀ kb ∈ known, kb.1.eval ρ = kb.2) →
+    ∀ e ∈ nEdges known, if e.strict then e.src.eval ρ < e.dst.eval ρ else e.src.eval ρ ≤ e.dst.eval ρ
+  | [], _, e, he => by simp [nEdges] at he
+  | (c, v) :: r, hk, e, he => by
+    have hc := hk (c, v) (by simp)
+    have ih := nEdges_valid ρ r (fun kb hkb => hk kb (List.mem_cons_of_mem _ hkb))
+    cases c <;> cases v <;> simp only [nEdges, List.mem_cons] at he <;>
+      first
+      | exact ih e he
+      | (rcases he with rfl | he
+         · simp [BTerm.eval] at hc ⊢; first | exact hc | exact le_of_lt hc | exact le_of_eq hc | exact not_lt.mp hc | exact not_le.mp hc
+         · first | exact ih e he | (rcases he with rfl | he
+                                    · simp [BTerm.eval] at hc ⊢; exact le_of_eq hc.symm
+                                    · exact ih e he))
+
+theorem iEdges_valid (ρ : Rho K) : ∀ (known : List (BTerm × Bool)), (∀ kb ∈ known, kb.1.eval ρ = kb.2) →
+    ∀ e ∈ iEdges known, if e.strict then e.src.eval ρ < e.dst.eval ρ else e.src.eval ρ ≤ e.dst.eval ρ
+  | [], _, e, he => by simp [iEdges] at he
+  | (c, v) :: r, hk, e, he => by
+    have hc := hk (c, v) (by simp)
+    have ih := iEdges_valid ρ r (fun kb hkb => hk kb (List.mem_cons_of_mem _ hkb))
+    cases c <;> cases v <;> simp only [iEdges, List.mem_cons] at he <;>
+      first
+      | exact ih e he
+      | (rcases he with rfl | he
+         · simp [BTerm.eval] at hc ⊢; first | exact hc | exact le_of_lt hc | exact le_of_eq hc | omega
+         · first | exact ih e he | (rcases he with rfl | he
+                                    · simp [BTerm.eval] at hc ⊢; omega
+                                    · exact ih e he))
+end
+
+
+/-- an equality asked the other way round -/
+def decideSym (known : List (BTerm × Bool)) : BTerm → Option Bool
+  | .neq x y => Tree.lookupB (.neq y x) known
+  | .ieq x y => Tree.lookupB (.ieq y x) known
+  | _ => none
+
+/-- decision by paths in the order graph (bounded depth) -/
+def decideGraph (known : List (BTerm × Bool)) (d : BTerm) : Option Bool :=
+  let fuel := 3
+  match d with
+  | .nlt x y =>
+    if reach (nEdges known) fuel x y true then some true
+    else if reach (nEdges known) fuel y x false then some false else none
+  | .nle x y =>
+    if reach (nEdges known) fuel x y false then some true
+    else if reach (nEdges known) fuel y x true then some false else none
+  | .neq x y =>
+    if reach (nEdges known) fuel x y true || reach (nEdges known) fuel y x true then some false
+    else if reach (nEdges known) fuel x y false && reach (nEdges known) fuel y x false then some true else none
+  | .ilt x y =>
+    if reach (iEdges known) fuel x y true then some true
+    else if reach (iEdges known) fuel y x false then some false else none
+  | .ile x y =>
+    if reach (iEdges known) fuel x y false then some true
+    else if reach (iEdges known) fuel y x true then some false else none
+  | .ieq x y =>
+    if reach (iEdges known) fuel x y true || reach (iEdges known) fuel y x true then some false
+    else if reach (iEdges known) fuel x y false && reach (iEdges known) fuel y x false then some true else none
+  | _ => none
+
+/-- decision by order reasoning: the syntactic look-up, the symmetric look-up, then the graph -/
+def decideO (known : List (BTerm × Bool)) (d : BTerm) : Option Bool :=
+  match Tree.lookupB d known with
+  | some b => some b
+  | none =>
+    match decideSym known d with
+    | some b => some b
+    | none => decideGraph known d
+
+section
+variable {K : Type} [LinearOrder K] [NumOpsC K]
+
+theorem decideSym_sound (ρ : Rho K) (known : List (BTerm × Bool)) (d : BTerm) (b : Bool)
+    (hk : ∀ kb ∈ known, kb.1.eval ρ = kb.2) (h : decideSym known d = some b) : d.eval ρ = b := by
+  cases d <;> simp only [decideSym] at h <;> try (simp at h)
+  · rename_i x y
+    have := Tree.lookupB_sound (K := K) (by intro x; simp) ρ (.ieq y x) known b hk h
+    simp only [BTerm.eval] at this ⊢
+    rw [← this]
+    simp only [decide_eq_decide]
+    exact eq_comm
+  · rename_i x y
+    have := Tree.lookupB_sound (K := K) (by intro x; simp) ρ (.neq y x) known b hk h
+    simp only [BTerm.eval, pyBeq_eq] at this ⊢
+    rw [← this]
+    simp only [decide_eq_decide]
+    exact eq_comm
+
+theorem decideGraph_sound (ρ : Rho K) (known : List (BTerm × Bool)) (d : BTerm) (b : Bool)
+    (hk : ∀ kb ∈ known, kb.1.eval ρ = kb.2) (h : decideGraph known d = some b) : d.eval ρ = b := by
+  unfold decideGraph at h
+  first
+  | have hn := reach_sound (fun t : NTerm => t.eval ρ) (nEdges known) (nEdges_valid ρ known hk)
+    have hi := reach_sound (fun t : ITerm => t.eval ρ) (iEdges known) (iEdges_valid ρ known hk)
+    simp only at h
+    split at h
+    · -- nlt
+      split at h
+      · rename_i hr; simp only [Option.some.injEq] at h; subst h
+        have := hn _ _ _ true hr; simpa [BTerm.eval] using this
+      · split at h
+        · rename_i hr; simp only [Option.some.injEq] at h; subst h
+          have := hn _ _ _ false hr; simpa [BTerm.eval] using this
+        · simp at h
+    · -- nle
+      split at h
+      · rename_i hr; simp only [Option.some.injEq] at h; subst h
+        have := hn _ _ _ false hr; simpa [BTerm.eval] using this
+      · split at h
+        · rename_i hr; simp only [Option.some.injEq] at h; subst h
+          have := hn _ _ _ true hr; simpa [BTerm.eval] using this
+        · simp at h
+    · -- neq
+      split at h
+      · rename_i hr; simp only [Option.some.injEq] at h; subst h
+        simp only [Bool.or_eq_true] at hr
+        rcases hr with hr | hr
+        · have := hn _ _ _ true hr; simp only [BTerm.eval, pyBeq_eq, decide_eq_false_iff_not] at this ⊢
+          exact ne_of_lt this
+        · have := hn _ _ _ true hr; simp only [BTerm.eval, pyBeq_eq, decide_eq_false_iff_not] at this ⊢
+          exact (ne_of_lt this).symm
+      · split at h
+        · rename_i hr; simp only [Option.some.injEq] at h; subst h
+          simp only [Bool.and_eq_true] at hr
+          have h1 := hn _ _ _ false hr.1
+          have h2 := hn _ _ _ false hr.2
+          simp only [BTerm.eval, pyBeq_eq, decide_eq_true_eq] at h1 h2 ⊢
+          exact le_antisymm h1 h2
+        · simp at h
+    · -- ilt
+      split at h
+      · rename_i hr; simp only [Option.some.injEq] at h; subst h
+        have := hi _ _ _ true hr; simpa [BTerm.eval] using this
+      · split at h
+        · rename_i hr; simp only [Option.some.injEq] at h; subst h
+          have := hi _ _ _ false hr; simpa [BTerm.eval] using this
+        · simp at h
+    · -- ile
+      split at h
+      · rename_i hr; simp only [Option.some.injEq] at h; subst h
+        have := hi _ _ _ false hr; simpa [BTerm.eval] using this
+      · split at h
+        · rename_i hr; simp only [Option.some.injEq] at h; subst h
+          have := hi _ _ _ true hr; simpa [BTerm.eval] using this
+        · simp at h
+    · -- ieq
+      split at h
+      · rename_i hr; simp only [Option.some.injEq] at h; subst h
+        simp only [Bool.or_eq_true] at hr
+        rcases hr with hr | hr
+        · have := hi _ _ _ true hr; simp only [BTerm.eval, decide_eq_false_iff_not] at this ⊢
+          exact ne_of_lt this
+        · have := hi _ _ _ true hr; simp only [BTerm.eval, decide_eq_false_iff_not] at this ⊢
+          exact (ne_of_lt this).symm
+      · split at h
+        · rename_i hr; simp only [Option.some.injEq] at h; subst h
+          simp only [Bool.and_eq_true] at hr
+          have h1 := hi _ _ _ false hr.1
+          have h2 := hi _ _ _ false hr.2
+          simp only [BTerm.eval, decide_eq_true_eq] at h1 h2 ⊢
+          exact le_antisymm h1 h2
+        · simp at h
+    · simp at h
+
+
+theorem decideO_sound (ρ : Rho K) (known : List (BTerm × Bool)) (d : BTerm) (b : Bool)
+    (hk : ∀ kb ∈ known, kb.1.eval ρ = kb.2) (h : decideO known d = some b) : d.eval ρ = b := by
+  unfold decideO at h
+  split at h
+  · rename_i b' hb
+    simp only [Option.some.injEq] at h
+    subst h
+    exact Tree.lookupB_sound (by intro x; simp) ρ d known b' hk hb
+  · split at h
+    · rename_i b' hb
+      simp only [Option.some.injEq] at h
+      subst h
+      exact decideSym_sound ρ known d b' hk hb
+    · exact decideGraph_sound ρ known d b hk h
+
+/-- the paths of the symbolic run under observation `g`, pruned by order reasoning -/
+def obsPathsOG (g : Except Err (Val × St) → Obs) (env : Env) (fuel : Nat) (fn : String) (args : List Val)
+    (st : St) : List (List (BTerm × Bool) × Obs) :=
+  ((run env fuel fn args st).map g).pathsD decideO []
+
+/-- the proof pattern with order-pruned paths (valuations into a linear order) -/
+theorem resultG_of_pathsO (g : Except Err (Val × St) → Obs) (ρ : Rho K) (env : Env)
+    (fuel : Nat) (fn : String) (args : List Val) (st : St) (Q : CObs K → Prop)
+    (h : ∀ p ∈ obsPathsOG g env fuel fn args st, (∀ cb ∈ p.1, cb.1.eval ρ = cb.2) → Q (p.2.eval ρ)) :
+    Q (resultG g ρ env fuel fn args st) := by
+  have e : resultG g ρ env fuel fn args st = (((run env fuel fn args st).map g).denote ρ).eval ρ := by
+    unfold resultG sem
+    exact congrArg (Obs.eval ρ) (Tree.denote_map ρ g (run env fuel fn args st)).symm
+  rw [e]
+  exact Tree.denote_of_pathsD ρ decideO (fun known d b hk hb => decideO_sound ρ known d b hk hb)
+    (fun (o : Obs) => Q (o.eval ρ)) _ [] (by simp) h
+
+/-- the same under *assumptions*: conditions known to hold of the state the run starts in (the book is
+sorted, volumes are positive, ids are distinct, …) are given to the pruner as already decided -/
+def obsPathsAG (assume : List (BTerm × Bool)) (g : Except Err (Val × St) → Obs) (env : Env) (fuel : Nat)
+    (fn : String) (args : List Val) (st : St) : List (List (BTerm × Bool) × Obs) :=
+  ((run env fuel fn args st).map g).pathsD decideO assume
+
+theorem resultG_of_pathsA (assume : List (BTerm × Bool)) (g : Except Err (Val × St) → Obs) (ρ : Rho K) (env : Env)
+    (fuel : Nat) (fn : String) (args : List Val) (st : St) (Q : CObs K → Prop)
+    (hass : ∀ kb ∈ assume, kb.1.eval ρ = kb.2)
+    (h : ∀ p ∈ obsPathsAG assume g env fuel fn args st, (∀ cb ∈ p.1, cb.1.eval ρ = cb.2) → Q (p.2.eval ρ)) :
+    Q (resultG g ρ env fuel fn args st) := by
+  have e : resultG g ρ env fuel fn args st = (((run env fuel fn args st).map g).denote ρ).eval ρ := by
+    unfold resultG sem
+    exact congrArg (Obs.eval ρ) (Tree.denote_map ρ g (run env fuel fn args st)).symm
+  rw [e]
+  exact Tree.denote_of_pathsD ρ decideO (fun known d b hk hb => decideO_sound ρ known d b hk hb)
+    (fun (o : Obs) => Q (o.eval ρ)) _ assume hass h
+
+theorem resultG_eq_of_pathsA (assume : List (BTerm × Bool)) (g : Except Err (Val × St) → Obs) (ρ : Rho K)
+    (env : Env) (fuel : Nat) (fn : String) (args : List Val) (st : St) (c : CObs K)
+    (hass : ∀ kb ∈ assume, kb.1.eval ρ = kb.2)
+    (h : ∀ p ∈ obsPathsAG assume g env fuel fn args st, (∀ cb ∈ p.1, cb.1.eval ρ = cb.2) → p.2.eval ρ = c) :
+    resultG g ρ env fuel fn args st = c :=
+  resultG_of_pathsA assume g ρ env fuel fn args st (fun r => r = c) hass h
+
+theorem resultG_eq_of_pathsO (g : Except Err (Val × St) → Obs) (ρ : Rho K) (env : Env)
+    (fuel : Nat) (fn : String) (args : List Val) (st : St) (c : CObs K)
+    (h : ∀ p ∈ obsPathsOG g env fuel fn args st, (∀ cb ∈ p.1, cb.1.eval ρ = cb.2) → p.2.eval ρ = c) :
+    resultG g ρ env fuel fn args st = c :=
+  resultG_of_pathsO g ρ env fuel fn args st (fun r => r = c) h
+end
 
 end Pams.Py
